@@ -212,4 +212,34 @@ theorem rest_of_quiescent {w : Workload} {s : State} (ha : InvA w s) (hb : InvB 
     left
     refine ⟨by rw [← ha.kind_eq]; exact hkind, by rw [Bits.wasStop_eq]; simp [hwas], hpark⟩
 
+/-! ### helpers for the statements in Props/C08.lean -/
+
+theorem count_le_one_of_nodup {l : List JobId} (h : l.Nodup) (j : JobId) : l.count j ≤ 1 :=
+  List.nodup_iff_count.mp h j
+
+theorem hardDropped_le_stolen {w : Workload} {s : State} (h : Reachable w s) (j : JobId) : s.hardDropped.count j ≤ s.stolen.count j := by
+  have hb := invB_reachable h
+  cases hx : s.xpc with
+  | done => rw [hb.hard_done hx]; exact Nat.le_refl _
+  | dropping l =>
+      have := hb.hard_drop l hx
+      rw [← this, List.count_append]; omega
+  | idle => rw [hb.hard_pre (by rw [hx]; simp) (by rw [hx]; simp)]; simp
+  | want => rw [hb.hard_pre (by rw [hx]; simp) (by rw [hx]; simp)]; simp
+  | held => rw [hb.hard_pre (by rw [hx]; simp) (by rw [hx]; simp)]; simp
+  | notifyAll => rw [hb.hard_pre (by rw [hx]; simp) (by rw [hx]; simp)]; simp
+
+/-- a later state of the same run -/
+inductive Later (s : State) : State → Prop where
+  | refl : Later s s
+  | step {t l t'} : Later s t → Step t l t' → Later s t'
+
+theorem later_reachable {w : Workload} {s : State} (h : Reachable w s) {t : State} (hl : Later s t) : Reachable w t := by
+  induction hl with
+  | refl => exact h
+  | step _ hs ih => exact .step ih hs
+
+theorem wait_stable {s : State} {l : Label} {s' : State} (hs : Step s l s') (hr : s.waitReturned = true) : s'.waitReturned = true := by
+  cases hs <;> first | exact hr | rfl
+
 end Yaclib.Pool
